@@ -35,6 +35,32 @@ class Tr:
         self.fresh = 0
         self.funcs = {}        # python function name -> dict(coq=..., mutated=[param positions], ret=type)
         self.globals = {}      # python name -> (coq name, type)
+        self.consts = {}       # python name of a constant digit table -> [(ord, value)]
+        self.tables = {}       # python name -> coq name, by ROLE: first table used is gen_lsdigit, second gen_msdigit
+        self.table_defs = []
+        self.inline_defs = {}  # nested helper functions that are inlined at their call sites
+        self.base_env = {}
+        self.ret_stack = []
+        self.interp_names = set()
+
+    def table(self, node, pyname):
+        if pyname not in self.tables:
+            roles = ['gen_lsdigit', 'gen_msdigit']
+            if len(self.tables) >= len(roles):
+                fail(node, 'a third digit table')
+            cn = roles[len(self.tables)]
+            self.tables[pyname] = cn
+            self.table_defs.append(f'(** digit table #{len(self.tables)} in order of use by convert_to_number (source name: {pyname}) *)\n'
+                                   f'Definition {cn} : list (N * N) :=\n  [' + '; '.join(f'({k}, {v})' for k, v in self.consts[pyname]) + '].\n')
+        return self.tables[pyname], 'dict_ci'
+
+    def pure_atom(self, e, env):
+        """atom and type of an expression that must compile without any binding (cannot raise)"""
+        res = []
+        txt = self.cx(e, env, lambda a, t: (res.append((a, t)) or '@@PURE@@'))
+        if txt != '@@PURE@@' or len(res) != 1:
+            fail(e, 'expression that can raise inside a comprehension')
+        return res[0]
 
     def tmp(self):
         self.fresh += 1
@@ -90,6 +116,8 @@ class Tr:
                 return k(cn, t)
             if e.id in self.globals:
                 return k(*self.globals[e.id])
+            if e.id in self.consts:
+                return k(*self.table(e, e.id))
             fail(e, 'unknown name')
         if isinstance(e, ast.Attribute):
             key = self.key_of(e)
@@ -211,6 +239,35 @@ class Tr:
                 if nm == 'isinstance' and len(e.args) == 2 and isinstance(e.args[1], ast.Name) and e.args[1].id == 'FloatingStatement':
                     return self.cx(e.args[0], env, lambda a, ta: k(f'(gs_is_floating {a})', 'bool') if ta == 'fstmt'
                                    else fail(e, 'isinstance on a non-statement'))
+                if nm == 'dict' and len(e.args) == 1 and isinstance(e.args[0], ast.Call) and isinstance(e.args[0].func, ast.Name) \
+                        and e.args[0].func.id == 'enumerate' and len(e.args[0].args) == 1:
+                    en = e.args[0]
+                    start = [kw.value for kw in en.keywords if kw.arg == 'start']
+                    if len(start) != len(en.keywords) or len(start) > 1:
+                        fail(e, 'enumerate with unsupported keywords')
+                    b = start[0].value if start and isinstance(start[0], ast.Constant) and isinstance(start[0].value, int) else (0 if not start else None)
+                    if b is None:
+                        fail(e, 'enumerate start that is not an integer literal')
+                    return self.cx(en.args[0], env, lambda a, ta: k(f'(py_dict_enum {b} {a})', 'dict_is') if ta == 'list_str'
+                                   else fail(e, f'dict(enumerate(..)) over a {ta}'))
+                if nm in self.inline_defs:
+                    fd = self.inline_defs[nm]
+                    names = [a.arg for a in fd.args.args]
+                    if len(names) != len(e.args) or e.keywords:
+                        fail(e, 'call of a nested helper with other than its positional parameters')
+
+                    def args(i, env_fn):
+                        if i == len(e.args):
+                            self.ret_stack.append(k)
+                            try:
+                                return self.block(list(fd.body), env_fn, lambda e2: fail(fd, 'helper can end without return'), None)
+                            finally:
+                                self.ret_stack.pop()
+                        ann = ast.unparse(fd.args.args[i].annotation) if fd.args.args[i].annotation is not None else None
+                        if ann not in self.PTYPES or self.PTYPES[ann][1] == 'dict_is':
+                            fail(fd, f'helper parameter {names[i]} with unsupported annotation {ann}')
+                        return self.cx(e.args[i], env, lambda a, ta: args(i + 1, {**env_fn, names[i]: (a, self.PTYPES[ann][1])}))
+                    return args(0, dict(self.base_env))
                 if nm in self.funcs:
                     fi = self.funcs[nm]
                     if fi['mutated']:
@@ -224,6 +281,9 @@ class Tr:
                     return args(0, [])
                 fail(e, 'call of an unknown function')
             if isinstance(f, ast.Attribute):
+                if f.attr == 'join' and len(e.args) == 1 and isinstance(f.value, ast.Constant) and f.value.value == '':
+                    return self.cx(e.args[0], env, lambda a, ta: k(a, 'str') if ta == 'list_char'
+                                   else fail(e, f"''.join of a {ta}"))
                 if f.attr == 'isspace' and not e.args:
                     return self.cx(f.value, env, lambda a, ta: k(f'(is_space {a})', 'bool') if ta == 'char'
                                    else fail(e, 'isspace on a non-character'))
@@ -238,6 +298,32 @@ class Tr:
             return go(0, [])
         if isinstance(e, ast.List) and not e.elts:
             return k('[]', 'list_any')
+        if isinstance(e, (ast.GeneratorExp, ast.ListComp)):
+            # (elt for x in xs if cond)  =  the loop that appends elt when cond holds
+            if len(e.generators) != 1 or e.generators[0].is_async or len(e.generators[0].ifs) > 1 or not isinstance(e.generators[0].target, ast.Name):
+                fail(e, 'comprehension with several loops / conditions / a pattern target')
+            g = e.generators[0]
+
+            def kit(xs, tx):
+                et = {'str': 'char', 'stmts': 'fstmt', 'list_int': 'int', 'list_str': 'str'}.get(tx)
+                if et is None:
+                    fail(e, f'comprehension over a {tx}')
+                x = cname(g.target.id)
+                env2 = {**env, g.target.id: (x, et)}
+                elt, telt = self.pure_atom(e.elt, env2)
+                rt = {'char': 'list_char', 'str': 'list_str', 'int': 'list_int'}.get(telt)
+                if rt is None:
+                    fail(e, f'comprehension producing {telt}')
+                if g.ifs:
+                    c, tc = self.pure_atom(g.ifs[0], env2)
+                    if tc != 'bool':
+                        fail(e, 'comprehension condition that is not a boolean')
+                    return k(f'(py_genexp (fun {x} => if {c} then Some {elt} else None) {xs})', rt)
+                return k(f'(py_genexp (fun {x} => Some {elt}) {xs})', rt)
+            key = self.key_of(g.iter)
+            if key == 'self.parsed.statements':
+                return kit('ctx_statements', 'stmts')
+            return self.cx(g.iter, env, kit)
         fail(e, 'unsupported expression')
 
     def cond(self, e, env, k):
@@ -297,10 +383,10 @@ class Tr:
             return self.block(rest, env2, k_end, loop)
 
         def bind(name, atom, t, env0):
-            cn = cname(name)
+            # a local is its definition: no `let` is emitted, the (pure) term is substituted at the uses
             env2 = dict(env0)
-            env2[name] = (cn, t)
-            return f'let {cn} := {atom} in\n{cont(env2)}'
+            env2[name] = (atom, t)
+            return cont(env2)
 
         if isinstance(s, ast.Expr) and isinstance(s.value, ast.Constant):
             return cont(env)                                   # docstring
@@ -321,9 +407,8 @@ class Tr:
                 if len(value.args) != 2:
                     fail(s, 'Proof(...) with other than two arguments')
                 return self.cx(value.args[0], env, lambda a, ta: self.cx(value.args[1], env, lambda b, tb: (
-                    f'let {cname(t.id + ".labels")} := {a} in\nlet {cname(t.id + ".applied_lemmas")} := {b} in\n' +
-                    cont({**env, t.id + '.labels': (cname(t.id + '.labels'), ta),
-                          t.id + '.applied_lemmas': (cname(t.id + '.applied_lemmas'), 'list_int' if tb == 'list_any' else tb),
+                    cont({**env, t.id + '.labels': (a, ta),
+                          t.id + '.applied_lemmas': (b, 'list_int' if tb == 'list_any' else tb),
                           t.id: (None, 'proofobj')}))))
             # call of a user function (possibly mutating a dict argument), result to a name or a pair of names
             if isinstance(value, ast.Call) and isinstance(value.func, ast.Name) and value.func.id in self.funcs:
@@ -337,7 +422,8 @@ class Tr:
                             key = self.key_of(value.args[p])
                             if key is None or key not in env:
                                 fail(s, 'mutated argument is not a variable')
-                            pats.append(env[key][0])
+                            pats.append(cname(key))
+                            env2[key] = (cname(key), env[key][1])
                         if isinstance(t, ast.Name):
                             env2[t.id] = (cname(t.id), fi['ret'])
                             pats.append(cname(t.id))
@@ -356,6 +442,10 @@ class Tr:
             if isinstance(t, ast.Name):
                 if isinstance(value, ast.Dict) and not value.keys:
                     return bind(t.id, '[]', 'dict_is', env)
+                if isinstance(value, ast.List) and not value.elts and isinstance(s, ast.AnnAssign):
+                    ann = ast.unparse(s.annotation)
+                    lt = {'list[int]': 'list_int', 'list[str]': 'list_str'}.get(ann, 'list_term')
+                    return bind(t.id, '[]', lt, env)
                 return self.cx(value, env, lambda a, ta: bind(t.id, a, {'char1': 'str1', 'list_any': 'list_term'}.get(ta, ta), env)
                                if ta != 'char1' else bind(t.id, f'[{a}]', 'str', env))
             if isinstance(t, ast.Tuple) and len(t.elts) == 2 and isinstance(t.elts[0], ast.Name) and isinstance(t.elts[1], ast.Starred) \
@@ -378,11 +468,15 @@ class Tr:
             fail(s, 'unsupported assignment target')
         if isinstance(s, ast.AugAssign):
             key = self.key_of(s.target)
-            if not isinstance(s.op, ast.Add) or key is None or key not in env:
+            if not isinstance(s.op, (ast.Add, ast.Mult)) or key is None or key not in env:
                 fail(s, 'unsupported augmented assignment')
             cn, t0 = env[key]
 
             def kk(a, ta):
+                if isinstance(s.op, ast.Mult):
+                    if t0 == 'int' and ta == 'int':
+                        return bind(key, f'({cn} * {a})', 'int', env)
+                    fail(s, f'*= of {ta} to {t0}')
                 if t0 == 'int' and ta == 'int':
                     return bind(key, f'({cn} + {a})', 'int', env)
                 if t0 == 'str' and ta in ('char', 'char1'):
@@ -402,8 +496,9 @@ class Tr:
                 return self.cx(c.args[0], env, lambda a, ta: bind(key, f'({env[key][0]} ++ [{a}])', env[key][1], env)
                                if ta == want else fail(s, f'append of {ta} to {env[key][1]}'))
             # interpreter().save(name, term) / interpreter().load(name, term): replay fragment only
-            if c.func.attr in ('save', 'load') and isinstance(recv, ast.Call) and isinstance(recv.func, ast.Name) \
-                    and recv.func.id == 'interpreter' and 'trace' in env and len(c.args) == 2:
+            is_interp = (isinstance(recv, ast.Call) and isinstance(recv.func, ast.Name) and recv.func.id == 'interpreter' and not recv.args) \
+                or (isinstance(recv, ast.Name) and recv.id in self.interp_names)
+            if c.func.attr in ('save', 'load') and is_interp and 'trace' in env and len(c.args) == 2:
                 ev = 'GSave' if c.func.attr == 'save' else 'GLoad'
 
                 def kk(a, ta):
@@ -430,6 +525,10 @@ class Tr:
             env2['stack.top'] = ('v_stack__top', 'opt_term')
             return txt + self.block(rest, env2, k_end, loop)
         if isinstance(s, ast.If):
+            if isinstance(s.test, ast.UnaryOp) and isinstance(s.test.op, ast.Not):
+                # `if not c: A else: B`  =  `if c: B else: A`
+                return self.block([ast.copy_location(ast.If(test=s.test.operand, body=list(s.orelse) or [ast.Pass()],
+                                                            orelse=list(s.body)), s)] + rest, env, k_end, loop)
             return self.cond(s.test, env, lambda c: f'if {c} then\n{self.block(list(s.body) + rest, env, k_end, loop)}\n'
                                                     f'else\n{self.block(list(s.orelse) + rest, env, k_end, loop)}')
         if isinstance(s, ast.Assert):
@@ -445,6 +544,8 @@ class Tr:
         if isinstance(s, ast.Return):
             if loop is not None or s.value is None:
                 fail(s, 'return inside a loop / without value')
+            if self.ret_stack:
+                return self.cx(s.value, env, self.ret_stack[-1])
             return self.cx(s.value, env, lambda a, ta: self.ret(a, ta, env))
         if isinstance(s, ast.For):
             return self.loop(s, env, cont)
@@ -483,6 +584,9 @@ class Tr:
             # a variable first assigned inside the body is local to one iteration (reading it after the loop is an unknown
             # name -> fail closed); only variables that exist before the loop are carried from one iteration to the next
             svars = [v for v in svars if v == idx or v in env]
+            # canonical order of the state tuple: the order in which the variables were first defined before the loop
+            order = {v: i for i, v in enumerate(env)}
+            svars = sorted(svars, key=lambda v: (-1 if v == idx else order[v]))
             benv = dict(env)
             en = cname(elem)
             benv[elem] = (en, et)
@@ -490,7 +594,10 @@ class Tr:
                 benv[elem] = ('(fst v_step)', 'int')
                 benv['step_term'] = ('v_step_term', 'term')
                 en = 'v_step'
-            pat_parts = [('_' if v == idx else env[v][0]) for v in svars]
+            pat_parts = [('_' if v == idx else cname(v)) for v in svars]
+            for v in svars:
+                if v != idx:
+                    benv[v] = (cname(v), env[v][1])
             pat = 'tt' if not pat_parts else pat_parts[0] if len(pat_parts) == 1 else "'(" + ', '.join(pat_parts) + ')'
             ienv = dict(benv)
             if idx is not None:
@@ -515,7 +622,8 @@ class Tr:
                     aenv[v] = (cname(v), 'opt_int')
                     out_parts.append(cname(v))
                 else:
-                    out_parts.append(env[v][0])
+                    aenv[v] = (cname(v), env[v][1])
+                    out_parts.append(cname(v))
             opat = '_' if not out_parts else out_parts[0] if len(out_parts) == 1 else '(' + ', '.join(out_parts) + ')'
             return f'match {call} {init} with None => None | Some {opat} =>\n{cont(aenv)} end'
         # iterable
@@ -586,34 +694,90 @@ def generate(repo):
            '    (head of the replay loop of exec_proof) — do not edit; regenerated on every run of ./check C15. *)',
            'From Coq Require Import NArith List Bool.', 'From Pi2 Require Import MM15.Codec MM15.GenPrelude.',
            'Import ListNotations.', 'Open Scope N_scope.', '']
-    tail, defs = [], []
+    tail = []
     nested = {}
+
+    def const_table(node, value):
+        """[(ord, value)] of a constant digit table, or None: a dict literal {'A': 1, ...} or the comprehension
+        {letter: value for value, letter in enumerate('ABC...', start=k)} (folded here: it is literal data)"""
+        if isinstance(value, ast.Dict) and value.keys:
+            items = []
+            for kx, vx in zip(value.keys, value.values):
+                if not (isinstance(kx, ast.Constant) and isinstance(kx.value, str) and len(kx.value) == 1
+                        and isinstance(vx, ast.Constant) and isinstance(vx.value, int) and not isinstance(vx.value, bool) and vx.value >= 0):
+                    fail(node, 'digit table entry that is not one character -> natural number')
+                items.append((ord(kx.value), vx.value))
+            return items
+        if isinstance(value, ast.DictComp) and len(value.generators) == 1 and not value.generators[0].ifs:
+            g = value.generators[0]
+            it = g.iter
+            if isinstance(g.target, ast.Tuple) and len(g.target.elts) == 2 and all(isinstance(x, ast.Name) for x in g.target.elts) \
+                    and isinstance(it, ast.Call) and isinstance(it.func, ast.Name) and it.func.id == 'enumerate' and len(it.args) == 1 \
+                    and isinstance(it.args[0], ast.Constant) and isinstance(it.args[0].value, str) \
+                    and isinstance(value.key, ast.Name) and isinstance(value.value, ast.Name) \
+                    and value.key.id == g.target.elts[1].id and value.value.id == g.target.elts[0].id:
+                start = 0
+                for kw in it.keywords:
+                    if kw.arg == 'start' and isinstance(kw.value, ast.Constant) and isinstance(kw.value.value, int):
+                        start = kw.value.value
+                    else:
+                        fail(node, 'enumerate with unsupported keyword')
+                letters = it.args[0].value
+                if len(set(letters)) != len(letters):
+                    fail(node, 'digit table with a repeated letter')
+                return [(ord(c), start + i) for i, c in enumerate(letters)]
+        return None
+
+    def never_mutated(tree, name, where):
+        for n in ast.walk(tree):
+            if isinstance(n, (ast.Assign, ast.AugAssign, ast.AnnAssign, ast.Delete)):
+                tg = n.targets if isinstance(n, (ast.Assign, ast.Delete)) else [n.target]
+                for t in tg:
+                    if isinstance(t, ast.Subscript) and isinstance(t.value, ast.Name) and t.value.id == name:
+                        fail(n, f'constant table {name} is stored into')
+            if isinstance(n, ast.Call) and isinstance(n.func, ast.Attribute) and isinstance(n.func.value, ast.Name) and n.func.value.id == name \
+                    and n.func.attr in ('update', 'pop', 'popitem', 'clear', 'setdefault', '__setitem__', '__delitem__'):
+                fail(n, f'constant table {name} is mutated')
+            if isinstance(n, ast.Global) and name in n.names:
+                fail(n, f'constant table {name} is declared global')
+        binds = [n for n in ast.walk(where) if isinstance(n, (ast.Assign, ast.AnnAssign))
+                 and any(isinstance(t, ast.Name) and t.id == name for t in (n.targets if isinstance(n, ast.Assign) else [n.target]))]
+        if len(binds) != 1:
+            fail(where, f'constant table {name} is bound {len(binds)} times')
+
+    # module-level constants (a module-level dict that is never mutated is a constant, not state)
+    for s in conv.body:
+        if isinstance(s, (ast.Assign, ast.AnnAssign)):
+            tg = s.targets[0] if isinstance(s, ast.Assign) and len(s.targets) == 1 else s.target if isinstance(s, ast.AnnAssign) else None
+            if isinstance(tg, ast.Name) and s.value is not None:
+                items = const_table(s, s.value)
+                if items is not None:
+                    never_mutated(conv, tg.id, conv)
+                    T.consts[tg.id] = items
     for s in ip.body:
         if isinstance(s, ast.Expr) and isinstance(s.value, ast.Constant):
             continue
-        if isinstance(s, ast.Assign) and len(s.targets) == 1 and isinstance(s.targets[0], ast.Name) and isinstance(s.value, ast.Dict) \
-                and s.value.keys and not tail:
-            # digit table: {'A': 1, ...}
-            items = []
-            for kx, vx in zip(s.value.keys, s.value.values):
-                if not (isinstance(kx, ast.Constant) and isinstance(kx.value, str) and len(kx.value) == 1
-                        and isinstance(vx, ast.Constant) and isinstance(vx.value, int) and not isinstance(vx.value, bool) and vx.value >= 0):
-                    fail(s, 'digit table entry that is not one character -> natural number')
-                items.append(f'({ord(kx.value)}, {vx.value})')
-            nm = 'gen_' + s.targets[0].id
-            defs.append(f'(** {s.targets[0].id} *)\nDefinition {nm} : list (N * N) :=\n  [' + '; '.join(items) + '].\n')
-            T.globals[s.targets[0].id] = (nm, 'dict_ci')
+        if isinstance(s, ast.Assign) and len(s.targets) == 1 and isinstance(s.targets[0], ast.Name) and not tail \
+                and const_table(s, s.value) is not None:
+            never_mutated(ip, s.targets[0].id, ip)
+            T.consts[s.targets[0].id] = const_table(s, s.value)
             continue
         if isinstance(s, ast.FunctionDef) and not tail:
             nested[s.name] = s
             continue
         tail.append(s)
-    for need in ('parse_lemmas', 'split_proof', 'convert_to_number'):
+    MAIN = ('parse_lemmas', 'split_proof', 'convert_to_number')
+    for need in MAIN:
         if need not in nested:
             raise SystemExit(f'mmdecode translator: nested function {need} not found in _import_proof')
-    if set(nested) != {'parse_lemmas', 'split_proof', 'convert_to_number'}:
-        raise SystemExit(f'mmdecode translator: unexpected nested functions {sorted(nested)}')
-    out += defs
+    # any other nested helper is inlined at its call sites (a helper = its body with the parameters substituted)
+    for nm, fd in nested.items():
+        if nm not in MAIN:
+            if fd.args.kwonlyargs or fd.args.vararg or fd.args.kwarg or fd.args.defaults or fd.decorator_list:
+                fail(fd, 'nested helper with defaults / decorators / variadic parameters')
+            T.inline_defs[nm] = fd
+    T.base_env = {'statement.proof': ('v_statement_proof', 'str')}
+    defs_pos = len(out)
     out += ['Section Ctx.', '(** the database statements split_proof walks and the set statement.get_metavariables() (membership only) *)',
             'Variable ctx_statements : list gstmt.', 'Variable ctx_metavars : list str.', '']
     # order: callees first
@@ -628,6 +792,9 @@ def generate(repo):
     # `return result` returns the Proof object = (labels, applied_lemmas)
     class RetFix(ast.NodeTransformer):
         def visit_Return(self, node):
+            v = node.value
+            if isinstance(v, ast.Call) and isinstance(v.func, ast.Name) and v.func.id == 'Proof' and len(v.args) == 2 and not v.keywords:
+                return ast.copy_location(ast.Return(value=ast.Tuple(elts=list(v.args), ctx=ast.Load())), node)
             if isinstance(node.value, ast.Name) and node.value.id == 'result':
                 return ast.copy_location(ast.Return(value=ast.Tuple(elts=[
                     ast.Attribute(value=ast.Name(id='result', ctx=ast.Load()), attr='labels', ctx=ast.Load()),
@@ -637,6 +804,9 @@ def generate(repo):
     txt = T.function(fake, 'gen_import_proof', extra_env=env0, body=tail)
     out.append(txt.replace('Definition gen_import_proof  :=', 'Definition gen_import_proof (v_statement_proof : str) :='))
     out += ['End Ctx.', '']
+    if sorted(T.tables.values()) != ['gen_lsdigit', 'gen_msdigit']:
+        raise SystemExit(f'mmdecode translator: expected two digit tables, found {sorted(T.tables)}')
+    out[defs_pos:defs_pos] = T.table_defs
 
     # ---- translate.py exec_proof: head of the replay loop ------------------------------------------------------------
     ep = next((n for n in trans.body if isinstance(n, ast.FunctionDef) and n.name == 'exec_proof'), None)
@@ -669,6 +839,7 @@ def generate(repo):
     env0 = {'exported_proof.labels': ('ctx_labels', 'dict_is'), 'trace': ('v_trace', 'trace'), 'stack.top': ('v_stack__top', 'opt_term')}
     T2 = Tr()
     T2.fresh = 1000
+    T2.interp_names = {a.arg for a in ep.args.args if a.arg in ('interp', 'interpreter')}
     txt = T2.function(fake, 'gen_replay', extra_env=env0, body=pre + [newloop, ret])
     txt = txt.replace('Definition gen_replay  :=\n', 'Definition gen_replay : option (list (gev term)) :=\nlet v_trace := [] in\nlet v_stack__top := @None term in\n')
     out += ['(** translate.py exec_proof: what a number denotes during replay.  [ctx_labels] = exported_proof.labels, [ctx_steps] = the',
